@@ -302,8 +302,63 @@ def r8(F, rep):
     companion_shape(F, rep, "C15-R8")
 
 
+def _walk(n):
+    yield n
+    for c in X.kids(n):
+        if c is not None:
+            yield from _walk(c)
+
+
+def r9(F, rep, rid="C15-R9"):
+    rep.rule(rid, "a value becomes a bin index by rounding DOWN: in the grid classes, wherever a floating-point quotient whose "
+                       "numerator is a difference ((value - lower boundary) / width) is converted to an integer (return of an "
+                       "integer function, initialiser of or assignment to an integer), the converted expression is a call of "
+                       "floor(): a bare cast truncates towards zero and puts values up to one width below the lower boundary "
+                       "into bin 0 instead of bin -1 (outside)")
+    def isfloat(t):
+        return t.replace("const ", "").strip() in ("double", "float", "cvm::real", "colvarmodule::real")
+
+    def isint(t):
+        return t.replace("const ", "").strip() in ("int", "long", "size_t", "unsigned long", "unsigned int", "long long", "std::size_t")
+
+    def signed_quotient(v, res, depth=0):
+        for m in _walk(v):
+            if m["k"] == "BinaryOperator" and m.get("op") == "/":
+                if any(x["k"] == "BinaryOperator" and x.get("op") == "-" for x in _walk(X.kids(m)[0])):
+                    return True
+            if m["k"] == "DeclRefExpr" and m.get("d") in res and depth < 3 and signed_quotient(res[m["d"]], res, depth + 1):
+                return True
+        return False
+    grid = set(F.subclasses("colvar_grid_params")) | {"colvar_grid_params"}
+    n = 0
+    for f in F.funcs.values():
+        if f.cls not in grid or "/src/" not in f.file or f.body is None:
+            continue
+        for s in f.walk():
+            val = tt = None
+            if s["k"] == "ReturnStmt" and X.kids(s):
+                val, tt = X.kids(s)[0], f.typestr(f.ret)
+            elif s["k"] == "VarDecl" and X.kids(s):
+                val, tt = X.kids(s)[0], f.typestr(s.get("t"))
+            elif s["k"] == "BinaryOperator" and s.get("op") == "=":
+                val, tt = X.kids(s)[1], f.typestr(X.strip(X.kids(s)[0]).get("t"))
+            if val is None or not tt or not isint(tt):
+                continue
+            v = X.strip(val)
+            if not isfloat(f.typestr(v.get("t"))) or not signed_quotient(v, X.const_locals(f)):
+                continue
+            n += 1
+            ok = v["k"] == "CallExpr" and (v.get("cq") or "").split("::")[-1] == "floor"
+            rep.add(rid, "%s|%s" % (f.q, X.re_strip(X.key(v, f))[:60]), f.loc(s), "%s converts `%s` to an integer %s" % (
+                f.q, X.text(v, f)[:70], "through floor()" if ok else "WITHOUT floor() (truncation towards zero)"), ok,
+                detail="a sample just below the lower boundary is counted in (and forced by) the first bin", func=f.q)
+    if n < 3:
+        raise AnalysisBroken("%s: only %d value-to-bin conversions found in the grid classes" % (rid, n))
+
+
 def run(F, rep, tier):
     r8(F, rep)
+    r9(F, rep)
     r1(F, rep)
     r3(F, rep)
     r4(F, rep)
